@@ -22,7 +22,6 @@ var DefaultModelOptions = []resource.Option{
 	WithActiveModeOption(resource.WithNoDuplicates()),
 	WithModeOption(resource.WithNoDuplicates()),
 	WithClock(clock.Real()),
-	WithRNG(rand.New(rand.NewSource(rand.Int63()))),
 }
 var defaultInitialVoltage float32 = 240
 
@@ -103,6 +102,9 @@ func WithRNG(rng *rand.Rand) resource.Option {
 
 func calcModelArgs(opts ...resource.Option) modelArgs {
 	args := new(modelArgs)
+	// Each model gets its own rng unless one is configured: a *rand.Rand is not safe for concurrent use and the
+	// resources of different models do not share a lock, so it must not live in the shared DefaultModelOptions.
+	args.apply(WithRNG(rand.New(rand.NewSource(rand.Int63()))))
 	args.apply(DefaultModelOptions...)
 	args.apply(opts...)
 	return *args
